@@ -22,10 +22,14 @@ RULE = ("classes: (a) the mutate suite's collection-heavy classes with its op hi
         "on the deep copy, on the unpickled copy, on a fresh twin and on the original, fingerprint (dump, hash, str, "
         "serialization) of the other instance after every op; deep alias probe: every native mutator / setattr / del on every "
         "object reachable (depth 3) from the copy resp. the original, the other instance must keep its fingerprint; "
-        "assignments and deletions on copy.copy(x) vs a fresh twin; two fixed cases: __validate__ hook after unpickling, "
+        "assignments and deletions on copy.copy(x) vs a fresh twin; classes with _enable_undefined_value (20% of the "
+        "spelling classes, 12% of the mutate classes, plus a directed stream of small mostly-optional classes): triples with "
+        "different subsets of optional fields left unset / explicitly None in random order (both operand orders are compared), "
+        "histories with x.f = None / re-assignment / None over a stored value; the first instance after its history joins the "
+        "comparison matrix; two fixed cases: __validate__ hook after unpickling, "
         "Decimals with different exponents; non-trivial = >=2 instances; distinct by sha256 of the case line")
 ASSUMPTIONS = [
-    "the undefined-value feature (_enable_undefined_value, the only writer of _none_fields) is off: _none_fields is empty; the model carries it, the harness never populates it",
+    "_enable_undefined_value is modelled for the top-level class only (Inst.nones / Inst.undef, getA reads Undefined, setattrUndef); nested instances carry no _none_fields in the value model; the constructor model (C01/C02) does not know the flag, so start states of such classes are taken from the real code",
     "Python's str() of floats, Decimals, enum members, deques, frozensets is an oracle table per case (Render); theorems that need a property of it state it as a hypothesis",
     "hash(str) collisions between different strings are ignored: the correspondence compares str(x), the oracle compares hash(x)",
     "independence of copy.copy is not claimed by the property (it shares the wrappers, which stay bound to the original)",
@@ -97,6 +101,11 @@ def _has_live_extras(case, j, tbl=None):
     return False
 
 
+def _stale_none(state):
+    """a field that is recorded in _none_fields while __dict__ still holds a value for it"""
+    return bool(set(state.get("nones") or []) & {k for k, _ in state["o"][1]})
+
+
 def judge(case, impl, model):
     msg = P.correspondence(case, impl, model)
     fails = []
@@ -104,7 +113,8 @@ def judge(case, impl, model):
         return msg, fails
     n = len(impl["states"])
     eq, ne, heq = impl["eq"], impl["ne"], impl["heq"]
-    show = lambda i: json.dumps(impl["states"][i]["o"])[:220]
+    show = lambda i: json.dumps(impl["states"][i]["o"])[:220] + (
+        f" _none_fields={impl['states'][i]['nones']}" if impl["states"][i].get("nones") else "")
     for i in range(n):
         if not eq[i][i]:
             fails.append(("eq-not-reflexive", f"x == x is False for {show(i)}"))
@@ -117,6 +127,8 @@ def judge(case, impl, model):
                 fails.append(("ne-not-negation", f"a != b and a == b are both {eq[i][j]}: a={show(i)} b={show(j)}"))
             if eq[i][j] != impl["fieldwise"][i][j]:
                 which = "eq-but-fields-differ" if eq[i][j] else "fields-equal-but-ne"
+                if not eq[i][j] and (_stale_none(impl["states"][i]) or _stale_none(impl["states"][j])):
+                    which = "none-recorded-over-stored-value"
                 fails.append((f"eq-vs-readback:{which}", f"a == b is {eq[i][j]} but field-wise equality of the values read back is "
                               f"{impl['fieldwise'][i][j]}: a={show(i)} b={show(j)}"))
             if i == j:
@@ -140,7 +152,9 @@ def judge(case, impl, model):
         if not c or "unavailable" in c:
             continue
         if not (c["eq"] and c["eqRev"]) or c["ne"] or not c["fieldwise"]:
-            if kind == "pickle" and _has_live_extras(case, {"o": impl["states"][0]["o"]}):
+            if kind == "pickle" and impl["states"][0]["nones"] and not c["state"]["nones"]:
+                key = "pickle-not-eq:none-fields-lost"
+            elif kind == "pickle" and _has_live_extras(case, {"o": impl["states"][0]["o"]}):
                 key = "pickle-not-eq:extra-attrs"
             else:
                 key = f"{kind}-not-eq"
